@@ -69,7 +69,9 @@ impl<'a> PrettyPrinter<'a> {
                     | SyntaxKind::CodeBlock
                     | SyntaxKind::ContentBlock
             ))
-            && !has_comment_children(parenthesized.to_untyped());
+            && !has_comment_children(parenthesized.to_untyped())
+            // A float like `1.` must not be followed directly by a field access: `(1.).f` is not `1..f`.
+            && !expr.to_untyped().text().ends_with('.');
 
         ListStylist::new(self)
             .with_fold_style(self.get_fold_style(ctx, parenthesized))
